@@ -269,8 +269,15 @@ pub fn c10_build(raw: &Raw, _tier: Tier, _sched: bool) -> Scenario {
         let c2 = b.sub(SubKind::Channeled { cap: 2, pol: Pol::Block, default_ctor: false });
         b.s.prelude.push(Op::Subscribe { store: s, sub: c2 });
     }
+    // "held" mode (drop policies only): C gets no token at all until every producer has finished -
+    // a stalled subscriber must never stall reducing, so the producers finish on their own; if the
+    // reducer waited for C they would block on the full queue and nobody would ever open the gate
+    let held = gated && cpol != Pol::Block && knob(raw, 14) % 2 == 0;
+    let done = if held { Some(b.gate()) } else { None };
+    let mut nprod = 0;
     for ops in raw.threads.iter() {
         let th = b.thread();
+        nprod += 1;
         for r in ops {
             if r.k % 8 == 7 {
                 b.s.threads[th].push(Op::Stall(stall_of(r.a)));
@@ -280,9 +287,12 @@ pub fn c10_build(raw: &Raw, _tier: Tier, _sched: bool) -> Scenario {
             let a = scripted_action(&mut b, s, r, &o);
             b.s.threads[th].push(Op::Dispatch { act: a, via: via_of(r) });
         }
+        if let Some(dg) = done {
+            b.s.threads[th].push(Op::GateSignal { gate: dg });
+        }
     }
     // terminator: unsubscribe(C) at a generated point (or leave it to the final stop)
-    let term = knob(raw, 7) % 3;
+    let term = if held { 0 } else { knob(raw, 7) % 3 };
     if term != 0 {
         let t = b.thread();
         let lead = pick(knob(raw, 8), 5);
@@ -296,7 +306,11 @@ pub fn c10_build(raw: &Raw, _tier: Tier, _sched: bool) -> Scenario {
             b.s.threads[t].push(Op::Stop { store: s, via_trait: false });
         }
     }
-    if let Some(g) = g {
+    if let (Some(g), Some(dg)) = (g, done) {
+        let ct = b.thread();
+        b.s.threads[ct].push(Op::GateAwait { gate: dg, entered: nprod });
+        b.s.threads[ct].push(Op::GateOpen { gate: g });
+    } else if let Some(g) = g {
         let ct = b.thread();
         let steps = pick(knob(raw, 10), 6);
         for i in 0..steps {
@@ -449,6 +463,9 @@ pub fn c10_check(scn: &Scenario, h: &History) -> Outcome {
     if iv.unsub_inv.is_some() {
         out.class("unsubscribed");
     }
+    if scn.threads.iter().flatten().any(|o| matches!(o, Op::GateSignal { .. })) {
+        out.class("held-until-producers-finished");
+    }
     if max_lag >= ccap + 1 && queued_at_term {
         out.nontrivial = true;
     }
@@ -457,7 +474,7 @@ pub fn c10_check(scn: &Scenario, h: &History) -> Outcome {
 
 pub static C10: Profile = Profile {
     id: "C10",
-    rule: "proptest scenarios: a triple registered back-to-back in the prelude - direct D1, channeled C (capacity 1-4, each policy), direct D2 - optionally a second channeled subscriber; 1-3 producers; C's callback is gated (tokens released by a controller thread) or stalls; unsubscribe(C) (twice) or stop() at a generated point. Oracle O-CHAN: C's calls all on one thread that is not the reducer context, a client thread or another channeled subscriber's thread; C's (state,action) stream vs D1's (equal prefix under BlockOnFull, in-order subsequence under drop policies, newest delivered under DropOldest); everything D2 saw before Inv(unsubscribe C) delivered before its Ret (flush); nothing after; all accepted actions reduced. Non-trivial = C lagged by >= capacity+1 notifications at some point AND the unsubscribe/stop came while an item was still queued for C; distinct by scenario hash.",
+    rule: "proptest scenarios: a triple registered back-to-back in the prelude - direct D1, channeled C (capacity 1-4, each policy), direct D2 - optionally a second channeled subscriber; 1-3 producers; C's callback is gated (tokens released by a controller thread; under drop policies half of the gated cases hold C without any token until every producer has finished, which deadlocks if reducing waits for C) or stalls; unsubscribe(C) (twice) or stop() at a generated point. Oracle O-CHAN: C's calls all on one thread that is not the reducer context, a client thread or another channeled subscriber's thread; C's (state,action) stream vs D1's (equal prefix under BlockOnFull, in-order subsequence under drop policies, newest delivered under DropOldest); everything D2 saw before Inv(unsubscribe C) delivered before its Ret (flush); nothing after; all accepted actions reduced. Non-trivial = C lagged by >= capacity+1 notifications at some point AND the unsubscribe/stop came while an item was still queued for C; distinct by scenario hash.",
     raw: raw3,
     build: c10_build,
     check: c10_check,
